@@ -33,7 +33,7 @@ fn n_grid_c() -> u64 {
 
 // mixed batches: dead IDs in front of live ones, duplicates, same-deadline modification
 fn n_grid_d() -> u64 {
-    10
+    12
 }
 
 fn grid(_p: &EpParams) -> u64 {
@@ -486,6 +486,18 @@ async fn grid_d(p: &EpParams, case: u64) -> EpReport {
         7 => {
             label = "ack [unknown, a1, a2]";
             su.seq.ack(&s, &[unknown.clone(), a1.clone(), a2.clone()]).await;
+        }
+        10 => {
+            label = "ack [a1, a1, a2] (duplicate)";
+            su.seq.ack(&s, &[a1.clone(), a1.clone(), a2.clone()]).await;
+        }
+        11 => {
+            label = "unary [a2, a1, a2] nack (duplicate)";
+            su.seq.modify(&s, &[a2.clone(), a1.clone(), a2.clone()], 0).await;
+            let got = su.seq.pull(&s, 10, true).await;
+            if got.len() != 2 {
+                rep.viol("C05", "C05:nack-not-available", format!("ModifyAckDeadline([a2, a1, a2], 0) made {} of 2 messages available", got.len()));
+            }
         }
         8 => {
             label = "stream ack [unknown, a1] + modify [unknown, a2] +30";
